@@ -117,7 +117,7 @@ def run_online(spec, rec: Recorder):
                 sd_bytes = rsd.target_sd(rsd.canonical_sid_from_string(sid))
                 if op == "unprotect":
                     mode = "public" if rng.random() < 0.4 else "nonce"
-                    blob = online.ref_blob(rng, rkid, rk, sid, (l0,) + pos, mode, pt, in_envelope=rng.random() < 0.7, domain=cfg.domain)
+                    blob = online.ref_blob(rng, rkid, rk, sid, (l0,) + pos, mode, pt, in_envelope=rng.random() < 0.7, domain=cfg.domain, forest="forest-root.example" if i % 2 else cfg.forest)
                     expect_gk = (sd_bytes, rkid, l0, pos[0], pos[1])
                     call_sync = lambda: dpapi_ng.ncrypt_unprotect_secret(blob, cache=dpapi_ng.KeyCache(), **kw)  # noqa: E731
                     call_async = lambda: dpapi_ng.async_ncrypt_unprotect_secret(blob, cache=dpapi_ng.KeyCache(), **kw)  # noqa: E731
